@@ -20,6 +20,10 @@ def GetRand_seedSum_1 (seedBT : Int) (seedBH : Int) : Option (Int) := do
 def GetRand_seedSum_2 (seedSum : Int) (seedTI : Int) : Option (Int) := do
   some (Big_Add seedSum seedTI)
 
+/-- branch condition: `p.Oracle` -/
+def GetRand_cond_1 (p_Oracle : Bool) : Option (Bool) := do
+  some p_Oracle
+
 def GetRand_seedOS_1 (read_new_big_Int_SetBytes_SHA256_p_OracleSeed : Int) (seedBT : Int) : Option (Int) := do
   let t1 ← Big_Div read_new_big_Int_SetBytes_SHA256_p_OracleSeed seedBT
   some t1
@@ -30,14 +34,10 @@ def GetRand_seedSum_3 (seedSum : Int) (seedOS : Int) : Option (Int) := do
 def GetRand_precision_1 : Option (Int) := do
   some (Big_Exp (Big_NewInt (10 : Int)) (Big_NewInt (20 : Int)))
 
-/-- branch condition: `p.Oracle` -/
-def GetRand_cond_1 (p_Oracle : Bool) : Option (Bool) := do
-  some p_Oracle
-
 /-- targets the translator refused, with the reason (must be empty) -/
 def untranslated : List String := []
 
 /-- names of the translated definitions -/
-def translated : List String := ["GetRand_seedBT_1(p_BlockTimestamp)", "GetRand_seedBH_1(read_new_big_Int_SetBytes_SHA256_p_BlockHash,seedBT)", "GetRand_seedTI_1(read_new_big_Int_SetBytes_SHA256_p_TxInitiator,seedBT)", "GetRand_seedSum_1(seedBT,seedBH)", "GetRand_seedSum_2(seedSum,seedTI)", "GetRand_seedOS_1(read_new_big_Int_SetBytes_SHA256_p_OracleSeed,seedBT)", "GetRand_seedSum_3(seedSum,seedOS)", "GetRand_precision_1()", "GetRand_cond_1(p_Oracle)"]
+def translated : List String := ["GetRand_seedBT_1(p_BlockTimestamp)", "GetRand_seedBH_1(read_new_big_Int_SetBytes_SHA256_p_BlockHash,seedBT)", "GetRand_seedTI_1(read_new_big_Int_SetBytes_SHA256_p_TxInitiator,seedBT)", "GetRand_seedSum_1(seedBT,seedBH)", "GetRand_seedSum_2(seedSum,seedTI)", "GetRand_cond_1(p_Oracle)", "GetRand_seedOS_1(read_new_big_Int_SetBytes_SHA256_p_OracleSeed,seedBT)", "GetRand_seedSum_3(seedSum,seedOS)", "GetRand_precision_1()"]
 
 end Irismod.Gen.PureRandom
